@@ -5,7 +5,10 @@
 (* k1 = A.child, k3 = B.child, k2 another instance of the same class K     *)
 (* that no yaqlized object leads to.  Only the value actually obtained     *)
 (* through an auto-yaqlizing object becomes reachable - never its class,   *)
-(* never other instances.                                                  *)
+(* never other instances.  r1 = A.rchild and r2 are instances of a class R *)
+(* that the host yaqlized itself with a restrictive policy (only `pub` is  *)
+(* whitelisted): they obey that policy whether or not they were obtained   *)
+(* through an auto-yaqlizing object - the grant never widens a policy.     *)
 (***************************************************************************)
 EXTENDS Naturals, Sequences, FiniteSets, TLC
 CONSTANT MaxHist
@@ -19,7 +22,12 @@ ObtainViaB == /\ Len(hist) < MaxHist /\ yq' = yq /\ hist' = Append(hist, "obtain
 \* evaluate  $o.secret  on one of the K instances
 Probe(o) == /\ Len(hist) < MaxHist /\ yq' = yq /\ hist' = Append(hist, o)
             /\ obs' = Append(obs, IF o \in yq THEN "reach" ELSE "deny")
-Next == ObtainViaA \/ ObtainViaB \/ \E o \in Objs : Probe(o)
+\* evaluate  $a.rchild  (an instance of the restrictively yaqlized class R) and probe R instances
+RObjs == {"r1", "r2"}
+ObtainRViaA == /\ Len(hist) < MaxHist /\ yq' = yq /\ hist' = Append(hist, "obtainRA") /\ obs' = Append(obs, "ok")
+ProbeR(o, member) == /\ Len(hist) < MaxHist /\ yq' = yq /\ hist' = Append(hist, o \o "." \o member)
+                     /\ obs' = Append(obs, IF member = "pub" THEN "reach" ELSE "deny")
+Next == ObtainViaA \/ ObtainViaB \/ ObtainRViaA \/ (\E o \in Objs : Probe(o)) \/ (\E o \in RObjs, m \in {"pub", "secret"} : ProbeR(o, m))
 Spec == Init /\ [][Next]_vars
 OnlyObtainedInstances == yq \subseteq {"k1"}
 =============================================================================
